@@ -272,6 +272,10 @@ def gen_clean_history(rnd, sid, feat=None):
         g = h.g
         mode = rnd.choice(['all', 'all', 'targets', 'targets', 'rules', 'dead', 'dead'])
         gen = mode == 'all' and rnd.random() < 0.4
+        if mode == 'dead' and rnd.random() < 0.7:
+            # cleandead situations: a statement removed / renamed since the build that filled the log
+            if mutate_manifest(rnd, h) and rnd.random() < 0.5: full_build(h, rnd)
+            g = h.g
         names = pick_names(rnd, g, mode) if mode in ('targets', 'rules') else []
         x = rnd.random()
         if x < 0.3:
@@ -608,7 +612,11 @@ def check_hists(hists, tr, crashes=(), known_ids=()):
 
 def run(hists, known_ids=()):
     rc, tr, err, out = ec.run_hists(hists)
-    return check_hists(hists, tr, getattr(ec.run_hists, 'crashes', []), known_ids)
+    crashes = getattr(ec.run_hists, 'crashes', [])
+    rep = check_hists(hists, tr, crashes, known_ids)
+    for hh, crc, cerr in crashes:
+        if not getattr(hh, 'cyclic', False): rep.viol.append(('engine-crash', hh, 'ninja died (rc=%s) in scenario %s' % (crc, hh.sid)))
+    return rep
 
 if __name__ == '__main__':
     if len(sys.argv) > 1 and sys.argv[1] == 'selftest':
